@@ -8,6 +8,7 @@
 from __future__ import annotations
 
 import collections
+import itertools
 import logging
 import operator
 import sys
@@ -47,6 +48,7 @@ from ampform.helicity.naming import (
     HelicityAmplitudeNameGenerator,
     NameGenerator,
     collect_spin_projections,
+    create_amplitude_base,
     create_amplitude_symbol,
     generate_transition_label,
     get_helicity_angle_symbols,
@@ -456,7 +458,24 @@ class HelicityAmplitudeBuilder:
 
         amplitude = self.config.spin_alignment.formulate_amplitude(self.reaction)
         spin_projections = collect_spin_projections(self.reaction)
+        self.__register_vanishing_amplitudes(spin_projections)
         return PoolSum(sp.Abs(amplitude) ** 2, *spin_projections.items())
+
+    def __register_vanishing_amplitudes(
+        self, spin_projections: dict[sp.Symbol, set[sp.Rational]]
+    ) -> None:
+        """Define amplitudes for which there are no transitions as zero.
+
+        The intensity sums over all combinations of the spin projections of the outer
+        states, but not each combination has to appear in the reaction (for example,
+        :math:`\\eta_c \\to \\Lambda\\bar\\Lambda` only has equal helicities).
+        """
+        for topology in group_by_topology(self.reaction.transitions):
+            base = create_amplitude_base(topology)
+            for helicities in itertools.product(*spin_projections.values()):
+                symbol = base[helicities]
+                if symbol not in self.__ingredients.amplitudes:
+                    self.__ingredients.amplitudes[symbol] = sp.S.Zero
 
     def __register_amplitudes(self, transition_group: list[StateTransition]) -> None:
         transition_by_topology = group_by_topology(transition_group)
